@@ -156,3 +156,23 @@ func fmtToks(ts []lexer.Token) string {
 	sb.WriteString("]")
 	return sb.String()
 }
+
+// PRoot is a grammar whose root production is implemented by user code (participle.Parseable): it accepts every
+// token stream and records the token texts.
+type PRoot struct {
+	Vals []string
+}
+
+// Parse implements participle.Parseable.
+func (p *PRoot) Parse(lex *lexer.PeekingLexer) error {
+	p.Vals = []string{}
+	for !lex.Peek().EOF() {
+		p.Vals = append(p.Vals, lex.Next().Value)
+	}
+	return nil
+}
+
+// BuildPRoot builds a parser whose root is PRoot over g's lexer profile and elision set.
+func BuildPRoot(g *Grammar) (*participle.Parser[PRoot], error) {
+	return participle.Build[PRoot](g.Options(nil)...)
+}
